@@ -76,6 +76,52 @@ def _run(specs):
     return ""
 
 
+def _run_split(specs):
+    """specs: list of (same_start, len_index, split): a line of that length made of ONE text node or of two text
+    nodes around an italics span (as a mid-row code produces): pieces are each <= 32, the line may not be"""
+    r = SCCReader()
+    lines = []
+    pre = []
+    for k, (same, i1, split) in enumerate(specs):
+        p = PreCaption(1000000 if same else 3000000 + k * 1000000, 9000000)
+        ch = chr(97 + 2 * k)
+        n = _len(i1)
+        if split and n >= 2:
+            h = n // 2
+            p.nodes = [CaptionNode.create_text(ch * h), CaptionNode.create_style(True, {"italics": True}),
+                       CaptionNode.create_text(ch * (n - h)), CaptionNode.create_style(False, {"italics": True})]
+        else:
+            p.nodes = [CaptionNode.create_text(ch * n)]
+        lines.append(ch * n)
+        pre.append(p)
+    done = []
+
+    def inject(*a):
+        if not done and r.caption_stash is not None:
+            done.append(1)
+            r.caption_stash._collection.extend(pre)
+    r._flush_implicit_buffers = inject
+    too_long = [ln for ln in lines if len(ln) > 32]
+    try:
+        cs = r.read("Scenarist_SCC V1.0\n")
+    except CaptionLineLengthError as e:
+        if not too_long:
+            return "spurious length error"
+        for ln in too_long:
+            if ln not in str(e):
+                return "offending line not named"
+        return ""
+    return "long line returned silently" if too_long else ""
+
+
+def scan2_split(s0: bool, s1: bool, a: int, b: int, sp0: bool, sp1: bool) -> str:
+    """
+    pre: 1 <= a < 5 and 1 <= b < 5
+    post: _ == ""
+    """
+    return _run_split([(s0, a, sp0), (s1, b, sp1)])
+
+
 def scan2(s0: bool, s1: bool, a: int, b: int) -> str:
     """
     pre: 0 <= a < 5 and 0 <= b < 5
@@ -148,6 +194,34 @@ def decode_row(mode: int, n: int) -> str:
     post: _ == ""
     """
     return _decode(mode, n)
+
+
+def _decode_midrow(mode, n1, n2):
+    # a row of 2*n1 characters, a mid-row italics code (one cell), 2*n2 characters
+    words = _words(n1) + " 91ae " + _words(n2)
+    if mode == 0:
+        body = "00:00:01:00\t9420 9470 " + words + " 942f\n\n00:00:05:00\t942c\n"
+    elif mode == 1:
+        body = "00:00:01:00\t9425 9470 " + words + " 94ad\n\n00:00:05:00\t9470 c162 94ad\n"
+    else:
+        body = "00:00:01:00\t9429 9470 " + words + "\n\n00:00:05:00\t9429 9470 c162\n"
+    try:
+        cs = SCCReader().read("Scenarist_SCC V1.0\n\n" + body)
+    except CaptionLineLengthError:
+        return ""  # refusing is always allowed when the row is longer than 32 cells
+    worst = 0
+    for c in cs.get_captions("en-US"):
+        for ln in "".join(c.get_text_nodes()).split("\n"):
+            worst = max(worst, len(ln))
+    return "" if worst <= 32 else "long line returned silently"
+
+
+def decode_row_midrow(mode: int, n1: int, n2: int) -> str:
+    """
+    pre: 0 <= mode < 3 and 6 <= n1 <= 9 and 6 <= n2 <= 9
+    post: _ == ""
+    """
+    return _decode_midrow(mode, n1, n2)
 
 
 # --- public API replay: the same captions as a real pop-on stream -------------------------------
